@@ -150,6 +150,9 @@ func runProperty(spec *PropSpec, tier string, seed uint64) int {
 		if jobs[i].Seed == 0 {
 			jobs[i].Seed = seed*1000003 + uint64(i)*7919 + 17
 		}
+		if tier == "thorough" && jobs[i].Timeout < 5400 {
+			jobs[i].Timeout = 5400 // watchdog only; its firing is inconclusive
+		}
 	}
 	out := runJobs(spec, jobs)
 	kf := loadKnownFindings()
